@@ -129,7 +129,8 @@ def run(ctx):
     rejected = []
     arities = sorted({len(l["items"]) for l in lines})
     for n in arities:
-        if n > 3:
+        if n > (2 if quick else 3):
+            ctx.cover(trace_lines_not_validated=sum(1 for l in lines if len(l["items"]) == n))
             continue
         r = ctx.tlc("getter/MCGetterTrace.tla", "getter/GetterTrace%d.cfg" % n, workers=1, timeout=1200 if quick else 3000,
                     deadlock=False)
